@@ -1,6 +1,7 @@
 import Driver.Util
 import Driver.Shard
 import InfluxVerif.Model.Compact
+import InfluxVerif.Model.BlockOrder
 namespace Driver.CompactD
 open InfluxVerif.Compact InfluxVerif.Values
 
@@ -53,8 +54,25 @@ def compactFiles (size : Nat) (fs : List File) : List (String × KD) :=
     let out := (compactKey size (keyDatas fs k)).flatten
     if out.isEmpty then none else some (k, { vals := out, tombs := [] })
 
+def parseBlks (spec : String) : Option (List InfluxVerif.BlockOrder.Blk) :=
+  allSome ((spec.splitOn ",").map fun it => match it.splitOn ":" with
+    | [a, b, f] => match a.toInt?, b.toInt?, f.toNat? with
+      | some a, some b, some f => some ⟨a, b, f⟩
+      | _, _, _ => none
+    | _ => none)
+
 def step (s : St) (line : String) : St × String :=
   match Driver.splitWs line with
+  | ["bsort", kind, spec] =>
+    -- the order in which the blocks of a key are merged: positions of the input in output order
+    match parseBlks spec with
+    | some bs =>
+      open InfluxVerif.BlockOrder in
+      let less := match kind with | "c" => lessC | "asc" => lessAsc | _ => lessDesc
+      -- the generator makes the blocks pairwise distinct, so a block identifies its position
+      let sorted := isort less bs
+      (s, "order " ++ ",".intercalate (sorted.map fun b => toString (bs.idxOf b)))
+    | none => (s, "bad-op")
   | ["reset", n] => ({ size := n.toNat!, files := [], maxG := 0 }, "ok")
   | ["f", g, q, spec] =>
     match g.toNat?, q.toNat?, parseSpec spec with
